@@ -123,5 +123,18 @@ driver_unit('driver_list_queued_owners', 5, 'bus_driver_handle_list_queued_owner
             [dict(name='bus_service_list_queued_owners', file=SVC, status='replaced', note='delivers <= 3 names; enforced (B) by C04.list_queued'),
              dict(name='_dbus_list_append/_dbus_list_get_first_link/_dbus_list_clear', file=LIST, status='stub', note='one-element list from a static link')],
             kind='B', unwind=66, bounds={'queued owners': '<= 3'})
+driver_unit('driver_list_names', 6, 'bus_driver_handle_list_services', ['drv.names'],
+            'ListNames: reply array = the bus name followed by the registry listing (each registered name once, same order); listing released once on every path',
+            [dict(name='bus_registry_list_services', file=SVC, status='replaced', note='delivers <= 3 names; enforced (B) by C04.registry_list'),
+             dict(name='dbus_message_iter_*', file='dbus/dbus-message.c', status='stub', note='appended strings logged; each may fail (OOM)')],
+            kind='B', unwind=66, bounds={'registered names': '<= 3'})
 queue_unit('list_queued', 4, 'bus_service_list_queued_owners', 3, ['listq.names', 'listq.fail'],
            'returned list = unique names of the queue entries in queue order (primary first); FALSE => empty list; queue untouched', props=('C04',), expect_s=30)
+
+UNITS.append(dict(name='C04.registry_list', props=['C04', 'C14'], kind='B', route='plain', bus=True, entry='harness',
+    tus=[dict(file=SVC, include_as='VERIF_TU')], harness='harness/c04_reglist.c', unwind=6, timeout=300, expect_s=10,
+    must_have=['rl.post1', 'rl.post4', 'rl.post6'], bounds={'registered names': '<= 3'},
+    functions=[dict(name='bus_registry_list_services', file=SVC, status='bounded', contract='TRUE => NULL-terminated array with exactly one copy of every registered name; FALSE => all copies and the array freed, nothing returned; registry unchanged'),
+               dict(name='_dbus_hash_table_get_n_entries/_dbus_hash_iter_*', file='dbus/dbus-hash.c', status='stub', note='ghost table of <= 3 services'),
+               dict(name='dbus_malloc/_dbus_strdup/dbus_free', file='dbus/dbus-memory.c', status='stub', note='each allocation may fail; frees logged')],
+    assumptions=['<= 3 registered names (bound)']))
